@@ -329,14 +329,19 @@ def run(ctx):
                               me | {'swap': ds(x.maturity_dt), 'swap_rate': sr, 'coupon': fl.cpn, 'pv01': p01}, clause='repriced-swap-rate')
             ctx.count('model/swap-objective', 3)
 
-    def stale_fit_only(curve, fn, tol):
+    def refit_value(curve, fn):
+        """the instrument's error on the same knots with the interpolator fitted afresh (None if that raises)"""
         try:
             rc = copy.copy(curve)
             rc._interpolator = Interpolator(curve._interp_type)
             rc._interpolator.fit(rc._times, rc._dfs)
-            return abs(quiet(fn, rc)) <= tol
+            return float(quiet(fn, rc))
         except Exception:  # noqa: BLE001
-            return False
+            return None
+
+    def stale_fit_only(curve, fn, tol):
+        rv = refit_value(curve, fn)
+        return rv is not None and abs(rv) <= tol
 
     def check_curve(kind, curve, v, instr, desc, tol=TOL, blanket=None):
         """instr: list of (tag, object, value function -> value/notional - par)"""
@@ -364,12 +369,15 @@ def run(ctx):
                     pc._interpolator.fit(pc._times, pc._dfs)
                     return pc
 
-                def closed_form_resid():
-                    """closed-form knots: df(start) read BEFORE the own knot was appended, df(maturity) after"""
+                def closed_form_resid(at_knot_time=False):
+                    """closed-form knots: df(start) read BEFORE the own knot was appended, df(maturity) after.
+                    at_knot_time: the maturity is read at the knot's own time (maturity - curve date)/365 instead of through
+                    df(date) (ACT/ACT ISDA time) - what is left is then NOT due to the time axis."""
                     a_ = yf(obj.dc_type, obj.start_dt, obj.maturity_dt)
                     r_ = obj.deposit_rate if tag == 'deposit' else obj.fra_rate
-                    ratio = (float(np.asarray(part_curve(kj).df(obj.start_dt)).ravel()[0])
-                             / float(np.asarray(part_curve(kj + 1).df(obj.maturity_dt)).ravel()[0]))
+                    pc1 = part_curve(kj + 1)
+                    dfm = pc1.df_t((obj.maturity_dt.excel_dt - v.excel_dt) / 365.0) if at_knot_time else pc1.df(obj.maturity_dt)
+                    ratio = float(np.asarray(part_curve(kj).df(obj.start_dt)).ravel()[0]) / float(np.asarray(dfm).ravel()[0])
                     return abs(ratio - (1.0 + a_ * r_))
                 # narrow: only closed-form knots (deposits / overlapping FRAs) can be hit; the span must touch a leap
                 # year; magnitude bounded by rate_scale * time-axis gap (<= ~1.2e-4 for |rates| <= 15 %, gap <= 366/365-1)
@@ -380,9 +388,18 @@ def run(ctx):
                     # interpolant each later knot moves the curve under the earlier instruments.  Excused only if the mechanism is
                     # exactly that: on the knot vector as it stood when this instrument's knot was placed (the later knots removed,
                     # the same interpolant refitted) the instrument DOES reprice to the root-finder tolerance; and the drift is small.
-                    if 0 <= off and math.isfinite(e) and abs(e) <= 5e-3:
+                    # drifts up to 5e-3 of notional: the placement check below is enough.  LARGER drifts (observed 6.8e-3 on a 2Y swap whose
+                    # coupon dates lie in a two-year gap between knots, 1.8e-2 on a closed-form FRA whose own knot swings the spline under
+                    # its start date) are excused only with the additional proof that the implementation's curve IS the interpolant fitted
+                    # afresh through the final knots (same error to 1e-12): then placement-correct + fresh spline leave later knots acting
+                    # through the non-local interpolant as the only mechanism.
+                    def fresh_fit_same():
+                        rv = refit_value(curve, fn)
+                        return rv is not None and abs(rv - e) <= 1e-12
+                    if 0 <= off and math.isfinite(e) and (abs(e) <= 5e-3 or fresh_fit_same()):
                         try:
                             incl = part_curve(kj + 1)
+                            leap_size = abs(e) <= 2.0 * rate_scale * gap + 1e-12     # the size the time-axis defect alone can explain
                             if j < len(instr) - 1 and abs(quiet(fn, incl)) <= tol:
                                 finding = 'C01/sequential-bootstrap-non-local-interp'
                             elif tag in ('deposit', 'fra') and kj >= 1:
@@ -392,7 +409,14 @@ def run(ctx):
                                 if resid <= tol:
                                     finding = 'C01/sequential-bootstrap-non-local-interp'
                                 elif leap and resid <= 2.0 * rate_scale * gap + 1e-12:
-                                    finding = 'C01/leap-time-axis'
+                                    finding = 'C01/leap-time-axis' if (leap_size or abs(e) <= 5e-3) else 'C01/sequential-bootstrap-non-local-interp'
+                                elif leap and gap > 0.0 and closed_form_resid(at_knot_time=True) <= tol:
+                                    # the same time-axis defect seen through a spline: the magnitude bound above assumes local
+                                    # forwards within +-15 %, but the truncated spline's forward at its (then) last knot can be
+                                    # larger (observed -33 %).  Mechanism verified instead of a magnitude: on the curve as it stood
+                                    # right after the instrument's own knot was placed, read at the knot's OWN time, the closed form
+                                    # holds to the root-finder tolerance - only the ISDA/365 time gap (and later knots) move it.
+                                    finding = 'C01/leap-time-axis' if leap_size else 'C01/sequential-bootstrap-non-local-interp'
                         except Exception:  # noqa: BLE001
                             pass
                 elif 'least-squares' in kind:
@@ -400,7 +424,12 @@ def run(ctx):
                     if math.isfinite(e) and abs(e) <= 1e-4:
                         finding = 'C01/least-squares-refit-tolerance'
                 elif (tag == 'fra' and curve._interp_type == InterpTypes.LINEAR_ONFWD_RATES and j == len(instr) - 1 and off >= 0
-                      and math.isfinite(e) and abs(e) <= 2e-2 and stale_fit_only(curve, fn, tol)):
+                      and math.isfinite(e) and abs(e) <= 2e-2
+                      and (stale_fit_only(curve, fn, tol)
+                           # ... or, when the FRA's dates touch a leap year, refitting leaves exactly the time-axis defect: what remains
+                           # meets the leap-time-axis classifier AND the closed form holds at the knot's own time on the refitted curve
+                           or (leap and gap > 0.0 and (lambda rv: rv is not None and abs(rv) <= 2.0 * rate_scale * gap + 1e-12)(refit_value(curve, fn))
+                               and kj >= 1 and closed_form_resid(at_knot_time=True) <= tol))):
                     # the closed-form FRA branch appends its knot without refitting the interpolator; when that FRA is the LAST
                     # instrument nothing refits afterwards and LINEAR_ONFWD_RATES (the one bootstrap scheme that reads a fitted
                     # object) extrapolates over the FRA's own knot.  Excused only if refitting on the final knots repairs it.
